@@ -28,39 +28,10 @@ theorem routes_rest_pprof :
        "pprof.Handler(\"heap\")", "pprof.Handler(\"goroutine\")", "pprof.Handler(\"block\")",
        "pprof.Handler(\"threadcreate\")"] := by decide
 
-/-- every error of the protocol is created by `NewFatalClientErr` … -/
-theorem errors_all_fatal : Lookupd.errsites.all (fun e => e.2.1 = "NewFatalClientErr") = true := by decide
-
-/-- … and function by function with the code the model answers -/
-theorem errsites_codes :
-    Lookupd.errsites.map (fun e => (e.1, e.2.2)) = errSites.map (fun e => (e.1, codeName e.2)) := by decide
-
-/-- F2: between reading the size and `make([]byte, bodyLen)` the size is range checked
-(this is the `sizeCheck = true` variant of `execIdentify`). -/
-theorem identify_size_checked :
-    Lookupd.identifySize =
-      ["assign err = binary.Read(reader, binary.BigEndian, &bodyLen)",
-       "if int64(bodyLen) > maxIdentifyBodySize",
-       "return return nil, protocol.NewFatalClientErr(nil, \"E_BAD_BODY\", fmt.Sprintf(\"IDENTIFY body too big %d > %d\", bodyLen, maxIdentifyBodySize))",
-       "if bodyLen <= 0",
-       "return return nil, protocol.NewFatalClientErr(nil, \"E_BAD_BODY\", fmt.Sprintf(\"IDENTIFY invalid body size %d\", bodyLen))",
-       "assign body := make([]byte, bodyLen)"] := by decide
-
-theorem identify_max : Lookupd.c_maxIdentifyBodySize = maxIdentifyBody := by decide
-
 theorem identify_guards :
     Lookupd.identifyFields =
       ["if client.peerInfo != nil",
        "if peerInfo.BroadcastAddress == \"\" || peerInfo.TCPPort == 0 || peerInfo.HTTPPort == 0 || peerInfo.Version == \"\""] := by
-  decide
-
-theorem identify_calls :
-    Lookupd.callsIdentify = ["Read", "make", "ReadFull", "Unmarshal", "StoreInt64", "AddProducer", "make"] := by decide
-
-theorem exec_cases :
-    Lookupd.execCases =
-      ["case \"PING\"", "case \"IDENTIFY\"", "case \"REGISTER\"", "case \"UNREGISTER\"",
-       "return return nil, protocol.NewFatalClientErr(nil, \"E_INVALID\", fmt.Sprintf(\"invalid command %s\", params[0]))"] := by
   decide
 
 /-- the command words are the byte strings the model compares with -/
@@ -72,10 +43,6 @@ theorem command_bytes :
     "  V1".toList.map (·.toNat) = magicV1.map (·.toNat) ∧
     "#ephemeral".toList.map (·.toNat) = ephSuffix.map (·.toNat) ∧
     "*".toList.map (·.toNat) = star.map (·.toNat) := by decide
-
-/-- (the extractor collapses runs of blanks inside the printed expression: `"  V1"` prints as `" V1"`) -/
-theorem magic_cases :
-    Lookupd.magicCases = ["assign _, err := io.ReadFull(conn, buf)", "case \" V1\""] := by decide
 
 theorem ioloop_shape :
     Lookupd.ioLoopStmts =
@@ -171,5 +138,6 @@ theorem topicChannelArgs_shape :
 theorem names :
     Lookupd.nameRegex = "^[.a-zA-Z0-9_-]+(#ephemeral)?$" ∧
     Lookupd.nameLen = ["if len(name) > 64 || len(name) < 1"] := by decide
+
 
 end Nsq.Tie.Registry
